@@ -3,7 +3,7 @@ import Qwt.Proofs.DArraySelect
 /-!
 # C07 — `DArray` answers `select1` / `select0` like the plain bit sequence
 
-`BV.Holds b s` (defined in `Qwt/Proofs/DArraySelect.lean`) is the word-level representation
+`BV.HoldsD b s` (defined in `Qwt/Proofs/DArraySelect.lean`) is the word-level representation
 predicate: `nBits = |s|`, `data.size = 8·⌈|s|/512⌉`, bit `i` is bit `i % 64` of word `i / 64`,
 padding bits are zero, words are `< 2^64`.
 
@@ -26,9 +26,11 @@ open Qwt Qwt.DA Qwt.BV Qwt.Extracted Qwt.DAProofs
 abbrev SelectInWordSpec : Prop := DAProofs.SelectInWordSpec
 
 /-- the position iterator enumerates the positions of `bit` in `s`, increasing (property C08) -/
-def PosIterSpec (b : BitVector) (s : List Bool) : Prop :=
-  ∀ bit, PosIter.collect bit b (b.nBits + 1) PosIter.new =
-    (List.range s.length).filter (fun i => s[i]! = bit)
+abbrev PosIterSpec (b : BitVector) (s : List Bool) : Prop := DAProofs.PosIterSpec b s
+
+theorem posIterSpec_iff (b : BitVector) (s : List Bool) :
+    PosIterSpec b s ↔ ∀ bit, PosIter.collect bit b (b.nBits + 1) PosIter.new =
+      (List.range s.length).filter (fun i => s[i]! = bit) := Iff.rfl
 
 /-! ## the list of positions -/
 
@@ -156,7 +158,7 @@ theorem dense_entry_exact (bit : Bool) {b : BitVector} {s : List Bool} (hpos : P
 
 /-- **`select` is correct and never faults**: for every `k`, dense or sparse groups in any
     order, `bit = true` or `false` -/
-theorem select_ok (bit : Bool) (s0 : Bool) {b : BitVector} {s : List Bool} (hb : Holds b s)
+theorem select_ok (bit : Bool) (s0 : Bool) {b : BitVector} {s : List Bool} (hb : HoldsD b s)
     (hsel : SelectInWordSpec) (hpos : PosIterSpec b s) (k : Nat) :
     DA.select bit (DA.new s0 b) (invNew bit b) k = .ok (Spec.select bit k s) := by
   obtain ⟨h1, h2⟩ := invNew_spec bit b
@@ -164,12 +166,12 @@ theorem select_ok (bit : Bool) (s0 : Bool) {b : BitVector} {s : List Bool} (hb :
   rw [select_core hb bit hsel (DA.new s0 b) rfl (invNew bit b) h1 h2 k, select_eq_positions,
     positions_eq]
 
-theorem select1_ok (s0 : Bool) {b : BitVector} {s : List Bool} (hb : Holds b s)
+theorem select1_ok (s0 : Bool) {b : BitVector} {s : List Bool} (hb : HoldsD b s)
     (hsel : SelectInWordSpec) (hpos : PosIterSpec b s) (k : Nat) :
     DA.select1 (DA.new s0 b) k = .ok (Spec.select true k s) :=
   select_ok true s0 hb hsel hpos k
 
-theorem select0_ok {b : BitVector} {s : List Bool} (hb : Holds b s)
+theorem select0_ok {b : BitVector} {s : List Bool} (hb : HoldsD b s)
     (hsel : SelectInWordSpec) (hpos : PosIterSpec b s) (k : Nat) :
     DA.select0 true (DA.new true b) k = .ok (Spec.select false k s) :=
   select_ok false true hb hsel hpos k
@@ -189,7 +191,7 @@ theorem countOnes_ok (s0 : Bool) {b : BitVector} {s : List Bool} (hpos : PosIter
     DA.countOnes (DA.new s0 b) = s.count true :=
   (inventory_ok true hpos).1
 
-theorem countZeros_ok (s0 : Bool) {b : BitVector} {s : List Bool} (hb : Holds b s)
+theorem countZeros_ok (s0 : Bool) {b : BitVector} {s : List Bool} (hb : HoldsD b s)
     (hpos : PosIterSpec b s) : DA.countZeros (DA.new s0 b) = .ok (s.count false) := by
   have h1 : (DA.new s0 b).ones.nSets = s.count true := (inventory_ok true hpos).1
   have h2 := count_true_add_false s
@@ -197,7 +199,7 @@ theorem countZeros_ok (s0 : Bool) {b : BitVector} {s : List Bool} (hb : Holds b 
   rw [h1, show (DA.new s0 b).bv.nBits = s.length from hb.nBits, if_pos (by omega)]
   congr 1; omega
 
-theorem len_ok (s0 : Bool) {b : BitVector} {s : List Bool} (hb : Holds b s) :
+theorem len_ok (s0 : Bool) {b : BitVector} {s : List Bool} (hb : HoldsD b s) :
     DA.len (DA.new s0 b) = s.length := hb.nBits
 
 /-- `get` delegates to the bit vector … -/
@@ -205,7 +207,7 @@ theorem get_delegates (s0 : Bool) (b : BitVector) (i : Nat) :
     DA.get (DA.new s0 b) i = BV.get b i := rfl
 
 /-- … which reads the bit -/
-theorem get_ok (s0 : Bool) {b : BitVector} {s : List Bool} (hb : Holds b s) (i : Nat) :
+theorem get_ok (s0 : Bool) {b : BitVector} {s : List Bool} (hb : HoldsD b s) (i : Nat) :
     DA.get (DA.new s0 b) i = .ok s[i]? := by
   rw [get_delegates]
   unfold BV.get
@@ -269,7 +271,7 @@ theorem default_ok (s0 : Bool) (k : Nat) :
   · unfold DA.countZeros DA.new; simp only [invNew_empty]; rfl
 
 /-- the empty vector satisfies the hypotheses of the general theorems -/
-theorem holds_empty : Holds {} [] where
+theorem holds_empty : HoldsD {} [] where
   nBits := rfl
   size := rfl
   lt := by intro i h; exact absurd h (Nat.not_lt_zero _)
@@ -277,5 +279,106 @@ theorem holds_empty : Holds {} [] where
 
 theorem posIterSpec_empty : PosIterSpec {} [] := by
   intro bit; cases bit <;> rfl
+
+/-! ## 5. the code before the repair was wrong (witness)
+
+`flushBlockP` is `flush_block` with the constants as parameters; with `old = true` the
+sparse branch reserves `len` slots of the shared sub-block array (the original code) instead
+of `⌈len/sub⌉`.  With groups of 4, sub-blocks of 2 and a distance limit of 8, the sparse
+group `[0,10,20,30]` followed by the dense group `[31,33,34]`: the entries of group 1 must
+start at slot `(4/2)·1 = 2`. -/
+
+def flushBlockP (sub maxd : Nat) (old : Bool) (inv : Inventories) (cur : List Nat) : Inventories :=
+  match cur with
+  | [] => inv
+  | first :: _ =>
+    let last := cur.getLast?.getD first
+    if last - first < maxd then
+      { inv with
+        blockInventory := inv.blockInventory.push (Int.ofNat first),
+        subblockInventory := inv.subblockInventory ++
+          ((everyNth sub cur).map (fun p => (p - first) % 65536)).toArray }
+    else
+      { inv with
+        blockInventory := inv.blockInventory.push (-(Int.ofNat inv.overflowPositions.size) - 1),
+        overflowPositions := inv.overflowPositions ++ cur.toArray,
+        subblockInventory := inv.subblockInventory ++
+          Array.replicate (if old then cur.length else (cur.length + sub - 1) / sub) 65535 }
+
+/-- the parametric function is the model's `flushBlock` at the crate's constants -/
+theorem flushBlockP_model :
+    flushBlockP daSubblockSize daMaxInBlockDistance false = flushBlock := by
+  funext inv cur
+  cases cur <;> rfl
+
+/-- repaired code: group 1 starts at slot 2 (offsets `0`, `34 − 31 = 3`) -/
+theorem witness_new :
+    ([[0, 10, 20, 30], [31, 33, 34]].foldl (flushBlockP 2 8 false) {}) =
+      { nSets := 0, blockInventory := #[-1, 31], subblockInventory := #[65535, 65535, 0, 3],
+        overflowPositions := #[0, 10, 20, 30] } := by decide
+
+/-- original code: slot 2 is a filler of the sparse group, the entries of group 1 sit at
+    slots 4, 5 — `select` of element 4 (`k / sub = 2`) would read the offset 65535 -/
+theorem witness_old :
+    ([[0, 10, 20, 30], [31, 33, 34]].foldl (flushBlockP 2 8 true) {}) =
+      { nSets := 0, blockInventory := #[-1, 31],
+        subblockInventory := #[65535, 65535, 65535, 65535, 0, 3],
+        overflowPositions := #[0, 10, 20, 30] } := by decide
+
+theorem witness_old_misaligned :
+    ([[0, 10, 20, 30], [31, 33, 34]].foldl (flushBlockP 2 8 true) {}).subblockInventory[2]?
+      ≠ ([[0, 10, 20, 30], [31, 33, 34]].foldl (flushBlockP 2 8 false) {}).subblockInventory[2]? := by
+  decide
+
+/-! ## 6. concrete evaluations (non-vacuity)
+
+`decide +kernel` evaluates the model itself in the Lean kernel (no compiled code is trusted;
+the only axioms are `propext` / `Quot.sound`). -/
+
+/-- the bit vector `BitVector::from_iter([0,12,33,42,55,61,1000])`: 1001 bits, 2 lines -/
+def bEx : BitVector :=
+  { data := #[2 ^ 0 + 2 ^ 12 + 2 ^ 33 + 2 ^ 42 + 2 ^ 55 + 2 ^ 61, 0, 0, 0, 0, 0, 0, 0,
+              0, 0, 0, 0, 0, 0, 0, 2 ^ 40],
+    nBits := 1001, nOnes := 7 }
+
+example : (BV.fromPositions [0, 12, 33, 42, 55, 61, 1000]).toOption = some bEx := by
+  decide +kernel
+
+example : Out.ofOpt (DA.select1 (DA.new true bEx) 0) = .some 0 := by decide +kernel
+example : Out.ofOpt (DA.select1 (DA.new true bEx) 1) = .some 12 := by decide +kernel
+example : Out.ofOpt (DA.select1 (DA.new true bEx) 6) = .some 1000 := by decide +kernel
+example : Out.ofOpt (DA.select1 (DA.new true bEx) 7) = .none := by decide +kernel
+example : DA.countOnes (DA.new false bEx) = 7 := by decide +kernel
+example : Out.ofVal (DA.countZeros (DA.new false bEx)) = .val 994 := by decide +kernel
+example : Out.ofOpt (DA.select0 false (DA.new false bEx) 3) = .fault .assertDoc := by decide
+
+/-- a 70-bit vector with ones at 0, 12, 33, 42, 55, 61, 69 and the list it holds: the
+    hypotheses `HoldsD` and `PosIterSpec` of the theorems are satisfiable -/
+def bEx2 : BitVector :=
+  { data := #[2 ^ 0 + 2 ^ 12 + 2 ^ 33 + 2 ^ 42 + 2 ^ 55 + 2 ^ 61, 2 ^ 5, 0, 0, 0, 0, 0, 0],
+    nBits := 70, nOnes := 7 }
+def sEx2 : List Bool := (List.range 70).map (fun i => decide (i ∈ [0, 12, 33, 42, 55, 61, 69]))
+
+theorem holdsEx2 : HoldsD bEx2 sEx2 where
+  nBits := by decide +kernel
+  size := by decide +kernel
+  lt := by decide +kernel
+  bit := by decide +kernel
+
+theorem posIterSpecEx2 : PosIterSpec bEx2 sEx2 := by
+  intro bit; cases bit <;> decide +kernel
+
+example : Out.ofOpt (DA.select0 true (DA.new true bEx2) 0) = .some 1 := by decide +kernel
+example : Out.ofOpt (DA.select0 true (DA.new true bEx2) 40) = .some 44 := by decide +kernel
+example : Out.ofOpt (DA.select0 true (DA.new true bEx2) 62) = .some 68 := by decide +kernel
+example : Out.ofOpt (DA.select0 true (DA.new true bEx2) 63) = .none := by decide +kernel
+example : Out.ofOpt (DA.select1 (DA.new true bEx2) 6) = .some 69 := by decide +kernel
+
+/-- the general theorem instantiated: the model's answer is the specification's -/
+example (hsel : SelectInWordSpec) (k : Nat) :
+    DA.select0 true (DA.new true bEx2) k = .ok (Spec.select false k sEx2) :=
+  select0_ok holdsEx2 hsel posIterSpecEx2 k
+
+example : Spec.select false 40 sEx2 = some 44 := by decide +kernel
 
 end Qwt.Props.C07
